@@ -566,7 +566,7 @@ def explore_loaded(rng, out, n):
         if mo == [-1] or not mo[0]:
             continue
         sd = scen.scenario_to_sd(sc, strict_keys=True)
-        e = ex.explore(sd, sc, (0, 1, 0), 400)
+        e = ex.explore(sd, sc, (0, 1, 0), 400, rng=rng, paths=2, depth=5, sample=80)
         states += e["states"]
         trans += e["transitions"]
         recs = [r for r in e["records"] if not dyn.has_bad(r)]
